@@ -18,6 +18,8 @@ use crate::rng::{mix, Rng};
 use crate::trace::*;
 
 pub const CLOSURE_CAP: usize = 100_000;
+/// strings longer than this are only fed to terms that pass the sizing probe
+pub const LONG_STRING: usize = 24;
 
 fn nontrivial(d: &Option<Arc<Dfa>>) -> bool {
     d.as_ref()
@@ -483,6 +485,14 @@ impl<'t> World<'t> {
                     }
                 }
             }
+        }
+        // derivatives along a long string can legitimately blow up for terms whose derivative set
+        // is large; long strings are only used on terms that pass the sizing probe
+        if tests.iter().any(|w| w.len() > LONG_STRING) && !(info.cost <= COST_CAP && !info.big && self.searchable(mi, e)) {
+            for w in tests.iter_mut() {
+                w.truncate(LONG_STRING);
+            }
+            self.bump("long_strings_truncated_on_heavy_terms");
         }
         let mut first: Option<bool> = None;
         for (ti, w) in tests.iter().enumerate() {
@@ -1095,6 +1105,10 @@ impl<'t> World<'t> {
         let mut first: Option<Vec<u32>> = None;
         for (si, s) in subjects.iter().enumerate() {
             if s.len() > 24 && info.dfa.is_none() {
+                continue;
+            }
+            if s.len() > LONG_STRING && !(info.cost <= COST_CAP && self.searchable(mi, e)) {
+                self.bump("long_strings_truncated_on_heavy_terms");
                 continue;
             }
             let (ss, ts) = (smt_str(s), smt_str(&t));
